@@ -274,7 +274,7 @@ type Hist struct {
 }
 
 var histOps = []string{"AppendData(a\rb)", "AppendData(\"\", c)", "AppendComment(n)", "ID=i<step>", "Type=t<step>", "Retry=<step>ms",
-	"String()", "MarshalText()", "WriteTo(buffer)", "UnmarshalText(event u<step>)", "continue on Clone()"}
+	"String()", "MarshalText()", "WriteTo(buffer)", "UnmarshalText(event u<step>)", "continue on Clone()", "UnmarshalText(data-only event)"}
 
 func (h Hist) String() string {
 	var ss []string
@@ -324,6 +324,13 @@ func checkHist(k *collector, h Hist) {
 			model = MsgSpec{Calls: []Call{{"data", []string{"du" + x}}, {"comment", []string{"cu"}}, {"data", []string{"dv"}}}, ID: "u" + x, HasID: true, Type: "tu", HasType: true, Retry: int64(7 * time.Millisecond)}
 		case 10:
 			m = m.Clone()
+		case 11:
+			// an event that sets nothing but data: ID, type and retry of whatever the message held before are gone
+			if err := m.UnmarshalText([]byte("data: w" + x + "\n\n")); err != nil {
+				k.fail("C02: UnmarshalText rejects a well-formed event", fmt.Sprintf("history %s: %v", h, err), h)
+				return
+			}
+			model = MsgSpec{Calls: []Call{{"data", []string{"w" + x}}}}
 		}
 	}
 	// the message, between two plain neighbours, on one stream
@@ -332,7 +339,11 @@ func checkHist(k *collector, h Hist) {
 	if checkWire(k, []MsgSpec{plain, model, plain}, w, nil, h) {
 		// the retry field is not part of ref.Event: compare it on the wire
 		wantRetry := model.Retry >= int64(time.Millisecond)
-		if got := strings.Contains(m.String(), "retry: "+strconv.FormatInt(model.Retry/int64(time.Millisecond), 10)+"\n"); got != wantRetry {
+		got := strings.Contains(m.String(), "retry: "+strconv.FormatInt(model.Retry/int64(time.Millisecond), 10)+"\n")
+		if !wantRetry {
+			got = strings.HasPrefix(m.String(), "retry:") || strings.Contains(m.String(), "\nretry:")
+		}
+		if got != wantRetry {
 			k.fail("C02: the retry field on the wire is not the one set", fmt.Sprintf("history %s: message encodes to %q, Retry set to %v", h, m.String(), time.Duration(model.Retry)), h)
 		}
 	}
